@@ -1082,21 +1082,33 @@ def replay_run(ctx, case):
     return 0
 
 
+def _pool_obs(h):
+    """(free store slots, free relay slots) of the real queue's gevent pools"""
+    q = h.queue
+    return (q.store_pool.free_count(), q.relay_pool.free_count())
+
+
 def bounded_pool_scenario(ctx):
     """D10 (known finding): with bounded store and relay pools a _dequeue greenlet holding the
     only store slot waits for a relay slot while the _attempt greenlet holding the only relay
-    slot waits for a store slot (to run _retry_later): nothing moves any more."""
+    slot waits for a store slot (to run _retry_later): nothing moves any more.  The real queue is
+    driven through the schedule of theorem C12_bounded_pools_deadlock_refuted (model/QueuePools.v)
+    and the pools' free counts are compared with the model after every step."""
     # one store slot is held for good by the _wait_store greenlet, so store_pool=2 leaves one
     h = QH(store_pool=2, relay_pool=1)
     case = dict(schedule='bounded-pools', store_pool=2, relay_pool=1)
+    ops = []       # model operations (E_QueuePools.dec_pop)
+    obs = []       # real (free_s, free_r) after each
     try:
         if h.pending('load'):
             h.release(h.pending('load')[0], [])
+        obs.append(_pool_obs(h))                          # state after start(): pinit (Some 2) (Some 1) true
         h.act_enqueue('s@example.com', [0])
         h.release(h.pending('write')[0])                 # m0 stored, attempt A0 takes the relay slot
         if not h.pending('relay', 0):
             ctx.note('bounded-pool scenario could not be set up (no relay gate)')
             return
+        ops.append([2, 0]); obs.append(_pool_obs(h))      # OAttempt 0
         # a second stored message is announced and becomes due
         env = Envelope('s@example.com', ['r6@example.com'])
         rid = h.inner.write(env, 0.0)
@@ -1105,18 +1117,63 @@ def bounded_pool_scenario(ctx):
         g = h.pending('wait')[0]
         h.release(g, [(0.0, rid)])
         h.act_advance(1)                                  # scheduler dispatches m1: _dequeue takes the store slot
+        ops.append([1, 1]); ops.append([0, 0, 1]); obs.append(None); obs.append(_pool_obs(h))     # ODispatch 1; EAcqS 1
         if h.pending('get', mid):
             h.release(h.pending('get', mid)[0])           # ... and now waits for a relay slot
+        ops.append([0, 1, 1]); obs.append(_pool_obs(h))   # EGot 1
         h.release(h.pending('relay', 0)[0], ('temp',))     # A0 fails: wants a store slot for _retry_later
+        ops.append([0, 3, 0]); obs.append(_pool_obs(h))   # EDone 0
         for _ in range(5):
             h.act_advance(10)
+        final = _pool_obs(h)
         progressed = bool(h.pending('incr', 0)) or any(a['id'] == mid for a in h.attempts)
         ctx.count('bounded-pool-scenario')
         ctx.evaluated(('bounded-pools', 1, 1))
+        # correspondence with model/QueuePools.v
+        states = ctx.model.call('cq_pools', [[2], [1], 1, ops])
+        model_obs = []
+        for st in states:
+            fs, fr, tasks, stuck = st
+            model_obs.append((fs[0] if fs else None, fr[0] if fr else None))
+        real_obs = [o for o in obs]
+        for k, o in enumerate(real_obs):
+            if o is not None and tuple(model_obs[k]) != tuple(o):
+                ctx.mismatch('queue-pools', dict(case, ops=ops, at=k), real_obs, model_obs)
+                break
+        model_stuck = bool(states[-1][3])
+        if model_stuck == progressed or tuple(model_obs[-1]) != tuple(final):
+            ctx.mismatch('queue-pools-final', dict(case, ops=ops), dict(progressed=progressed, free=final), dict(stuck=model_stuck, free=model_obs[-1]))
         if not progressed:
             ctx.fail('c12:bounded-pools-deadlock', case,
                      'store_pool=2 (one slot held by _wait_store), relay_pool=1: after a transient failure of message 0 while message 1 was being dequeued, '
                      'neither the retry bookkeeping of 0 nor an attempt of 1 ever starts (pending gates: %r)' % (h.gates,))
+    finally:
+        h.close()
+
+
+def unbounded_relay_pool_scenario(ctx):
+    """the same schedule with relay_pool=None (theorem C12_relay_unbounded_never_stuck): everything moves on"""
+    h = QH(store_pool=2, relay_pool=None)
+    case = dict(schedule='bounded-store-unbounded-relay', store_pool=2)
+    try:
+        if h.pending('load'):
+            h.release(h.pending('load')[0], [])
+        h.act_enqueue('s@example.com', [0])
+        h.release(h.pending('write')[0])
+        env = Envelope('s@example.com', ['r6@example.com'])
+        rid = h.inner.write(env, 0.0)
+        mid = h.new_id(rid)
+        h.accepted[mid] = (True, [6])
+        h.release(h.pending('wait')[0], [(0.0, rid)])
+        h.act_advance(1)
+        if h.pending('get', mid):
+            h.release(h.pending('get', mid)[0])
+        if h.pending('relay', 0):
+            h.release(h.pending('relay', 0)[0], ('temp',))
+        progressed = bool(h.pending('incr', 0)) and bool(h.pending('relay', mid))
+        ctx.evaluated(('bounded-store-unbounded-relay', 2))
+        if not progressed:
+            ctx.fail('c12:stuck-with-unbounded-relay-pool', case, 'store_pool=2, relay_pool=None: after the same schedule as the bounded-pool deadlock the retry bookkeeping of message 0 and the attempt of message 1 must both be under way; pending gates: %r' % (h.gates,))
     finally:
         h.close()
 
